@@ -295,6 +295,7 @@ def case_history(ctx, tname, ops):
     paths, ex = core.run_paths(go, PRE, max_paths=200)
     ctx.explored(ex, len(paths))
     rp = lambda m: replay_history(tname, ops, model_params(m))
+    ctx.fallback = rp
     names = dict(seed=PARAMS["seed"])
     for pi, p in enumerate(paths):
         hyp = PRE + p.pc
